@@ -23,7 +23,7 @@ Definition w3 (n : N) : bv := bv_of_N 3 n.
 Definition ex_m : memory := [w3 1; w3 2; w3 3; w3 4; w3 5].
 (* declaration order: read a, write b, read c, write d, read e *)
 Definition ex_ps : list port := [MkPort true false; MkPort false true; MkPort true false; MkPort false true; MkPort true false].
-Definition rdp (a : N) := MkApin a true false [].
+Definition rdp (a : N) := MkApin a true true [].
 Definition wrp (a : N) (en : bool) (d : N) := MkApin a true en (w3 d).
 Definition ex_pin (pt : port) (i : aport_in) : port_in :=
   MkPin (Some (bv_of_N 3 (ai_addr i))) None (if p_write pt then Some (of_bool (ai_wen i)) else None) (Some (ai_wdata i)).
@@ -35,7 +35,12 @@ Definition ex_pcycles := map (fun ins => map (fun '(pt, i) => ex_pin pt i) (comb
 
 Example ex_hyps : Forall2 (cycle_ok ex_c 5 ex_ps) ex_cycles ex_pcycles.
 Proof.
-  repeat constructor; unfold ain_ok, pin_rel, en_rel; simpl; try lia; auto.
+  repeat (apply Forall2_cons || apply Forall2_nil); unfold cycle_ok;
+    (split; [reflexivity | split]);
+    [ repeat (apply Forall_cons || apply Forall_nil); unfold ain_ok; simpl; lia
+    | repeat (apply Forall2_cons || apply Forall2_nil); unfold pin_rel, en_rel; simpl; repeat split; auto
+    | repeat (apply Forall_cons || apply Forall_nil); unfold ain_ok; simpl; lia
+    | repeat (apply Forall2_cons || apply Forall2_nil); unfold pin_rel, en_rel; simpl; repeat split; auto ].
 Qed.
 (* read after write sees new data, later write wins, disabled write does not write, next cycle reads the committed word *)
 Example ex_run :
@@ -110,7 +115,12 @@ Print Assumptions mem_write_disabled.
 Example ex_compat_hyps :
   Forall2 pin_compat [MkPin (Some [BX; B1; B0]) None (Some BX) (Some (w3 5))]
                      [MkPin (Some [B0; B1; B0]) None (Some B1) (Some (w3 5))].
-Proof. repeat constructor; simpl; unfold compat; auto. Qed.
+Proof.
+  apply Forall2_cons; [|apply Forall2_nil]. unfold pin_compat; simpl. repeat split; auto.
+  - repeat (apply Forall2_cons || apply Forall2_nil); unfold compat; auto.
+  - unfold compat; auto.
+  - apply bv_compat_refl.
+Qed.
 
 (* C08 for memories: undefined address / enable / data bits (and undefined memory bits) can only
    make read data and the stored words undefined, never wrong: runs on pointwise compatible inputs
@@ -152,7 +162,7 @@ Theorem latency_L_not_earlier : forall (L : nat) (p : pipe) (xs : list bv) (t : 
 Proof. exact pipe_initial_proof. Qed.
 Print Assumptions latency_L_not_earlier.
 
-(* one write port, K = 2: write 9 to address 1 in cycle 0, read address 1 in cycles 0,1,2 *)
+(* one write port, K = 2, contents 7 everywhere: write 1 to address 1 in cycle 0, read address 1 in cycles 0,1,2 *)
 Definition ex_lw : stream (list wr) := fun t => match t with O => [MkWr 1 true (w3 1)] | _ => [] end.
 Example ex_bypass :
   let out := bypass_out 2 (fun _ => 0) (fun _ => None) (fun _ => w3 0) (fun _ => w3 7) (fun _ => 1) (delay_writes 2 ex_lw) in
@@ -168,14 +178,14 @@ Proof. vm_compute. reflexivity. Qed.
    presented; for any number of write ports, all address/enable/data sequences and arbitrary
    initial contents of every register. *)
 Theorem rmw_bypass_correct : forall K ainit cinit rinit f0 ra lw t, (1 <= K)%nat ->
-  bypass_out K ainit cinit rinit f0 ra (delay_writes K lw) (t + K) = phys f0 lw t (ra t).
+  bypass_out K ainit cinit rinit f0 ra (delay_writes K lw) (t + K)%nat = phys f0 lw t (ra t).
 Proof. exact rmw_bypass_correct_proof. Qed.
 Print Assumptions rmw_bypass_correct.
 
 (* the same without assuming how the physical write streams arise: the corrected output sees every
    physical write up to the cycle before it appears *)
 Theorem rmw_bypass_sees_all_writes : forall K ainit cinit rinit f0 ra pw t, (1 <= K)%nat ->
-  bypass_out K ainit cinit rinit f0 ra pw (t + K) = phys f0 pw (t + K) (ra t).
+  bypass_out K ainit cinit rinit f0 ra pw (t + K)%nat = phys f0 pw (t + K)%nat (ra t).
 Proof. exact bypass_out_phys_proof. Qed.
 Print Assumptions rmw_bypass_sees_all_writes.
 
